@@ -9,6 +9,7 @@ package main
 
 import (
 	"fmt"
+	"sort"
 	"strings"
 	"time"
 
@@ -126,6 +127,9 @@ func exec(line string) hx.Result {
 	prevAns := ""
 	var prevG *gr
 	maxBlocks := 0
+	presUsed := map[string]bool{}
+	var firstG *gr
+	firstAns := ""
 	for i := -1; i < len(c.toks); i++ {
 		kind := byte('0')
 		if i >= 0 {
@@ -151,7 +155,7 @@ func exec(line string) hx.Result {
 		} else {
 			st = propagate(st, kind)
 		}
-		// the implementation
+		// the implementation, on every presentation of the same abstract graph
 		ans := callIsPlanar(toDense(g))
 		if ans2 := callIsPlanar(toSparse(g)); ans2 != ans {
 			fail("repr", "IsPlanar differs between DenseGraph (%s) and SparseGraph (%s) on %s", ans, ans2, g.text())
@@ -166,6 +170,32 @@ func exec(line string) hx.Result {
 			view := graph.InducedSubgraph(toDense(g.relabel(p)), p)
 			if ans3 := callIsPlanar(view); ans3 != ans {
 				fail("view", "IsPlanar differs between DenseGraph (%s) and an InducedSubgraph view of a relabelling (%s) on %s", ans, ans3, g.text())
+			}
+		}
+		{
+			h := uint64(g.hash())
+			pr := &prng{s: h*0x9e3779b97f4a7c15 + uint64(i+1)}
+			k1 := int((h + uint64(i+1)) % numExtraPres)
+			k2 := int((h/13 + 5*uint64(i+2)) % numExtraPres)
+			ks := []int{k1}
+			if k2 != k1 {
+				ks = append(ks, k2)
+			}
+			for _, k := range ks {
+				x := extraPres(g, k, pr)
+				if x.g == nil || !presentsExactly(x.g, g) {
+					// the presentation itself is wrong (another property's business): not used
+					res.Buckets = append(res.Buckets, "guard-failed:"+x.name)
+					continue
+				}
+				ansX := callIsPlanar(x.g)
+				if ansX != ans {
+					fail("prov-"+x.name, "IsPlanar = %s on a DenseGraph but %s on the same graph presented as %s: %s", ans, ansX, x.name, g.text())
+				}
+				if !presentsExactly(x.g, g) {
+					fail("mutated-"+x.name, "IsPlanar changed its argument (presentation %s): %s", x.name, g.text())
+				}
+				presUsed[x.name] = true
 			}
 		}
 		if ans == "panic" {
@@ -200,6 +230,9 @@ func exec(line string) hx.Result {
 			}
 		}
 		prevAns = ans
+		if i < 0 {
+			firstG, firstAns = g, ans
+		}
 		shown := ans
 		if st == stUnknown && ans != "panic" {
 			shown = "?"
@@ -219,9 +252,54 @@ func exec(line string) hx.Result {
 			maxBlocks = nb
 		}
 	}
+	// hidden state across calls in this worker process: the first graph again after the whole
+	// chain; a call that panics inside the caller's Graph implementation and is recovered, then
+	// the last graph again; a call from inside another call's Neighbours
+	if firstG != nil && prevAns != "panic" && firstAns != "panic" {
+		if again := callIsPlanar(toDense(firstG)); again != firstAns {
+			fail("state-again", "IsPlanar = %s on the first graph, %s on the same graph after %d other calls: %s", firstAns, again, len(c.toks), firstG.text())
+		}
+		if g.n >= 5 {
+			calls := 0
+			at := 1 + g.hash()%17
+			bomb := userGraph{g: g, calls: &calls, onNb: func(k int) {
+				if k == at {
+					panic("caller's Graph panics")
+				}
+			}}
+			_ = callIsPlanar(bomb) // "panic" expected when IsPlanar asks that often; not judged
+			if again := callIsPlanar(toSparse(g)); again != prevAns {
+				fail("state-recover", "IsPlanar = %s, but %s on the same graph after a call that panicked in the caller's Neighbours and was recovered: %s", prevAns, again, g.text())
+			}
+			calls = 0
+			innerBad := ""
+			nested := userGraph{g: g, calls: &calls, onNb: func(k int) {
+				if k == at || k == 3*at {
+					if a := callIsPlanar(toDense(completeBip(3, 3).grow(2))); a != "f" {
+						innerBad = "K3,3 + 2 isolated = " + a
+					}
+					if a := callIsPlanar(toSparse(firstG)); a != firstAns {
+						innerBad = "first graph of the case = " + a + " instead of " + firstAns
+					}
+				}
+			}}
+			if outer := callIsPlanar(nested); outer != prevAns {
+				fail("state-nested", "IsPlanar = %s, but %s when other IsPlanar calls run inside its Neighbours calls: %s", prevAns, outer, g.text())
+			}
+			if innerBad != "" {
+				fail("state-nested", "a call made from inside another call's Neighbours gave a wrong answer (%s): %s", innerBad, g.text())
+			}
+		}
+	}
+	var presNames []string
+	for name := range presUsed {
+		presNames = append(presNames, "pres:"+name)
+	}
+	sort.Strings(presNames)
+	res.Buckets = append(res.Buckets, presNames...)
 	res.Obs = strings.Join(obs, " ")
-	res.Buckets = []string{"fam:" + c.fam, fmt.Sprintf("n<=%d", bucket(c.g.n)), fmt.Sprintf("blocks<=%d", bucket(maxBlocks)),
-		fmt.Sprintf("truth:%c", c.truth), "final:" + prevAns}
+	res.Buckets = append(res.Buckets, "fam:"+c.fam, fmt.Sprintf("n<=%d", bucket(c.g.n)), fmt.Sprintf("blocks<=%d", bucket(maxBlocks)),
+		fmt.Sprintf("truth:%c", c.truth), "final:"+prevAns)
 	return res
 }
 
@@ -376,7 +454,7 @@ func gen(g *hx.Gen) {
 	}
 
 	// 5. planar by construction, up to n = 60 (thorough: 120), with chains
-	for i := 0; i < g.Pick(500, 6000); i++ {
+	for i := 0; i < g.Pick(400, 4500); i++ {
 		n := r.Range(5, 60)
 		if g.Thorough() && r.Chance(1, 6) {
 			n = r.Range(60, 120)
@@ -396,7 +474,7 @@ func gen(g *hx.Gen) {
 	}
 
 	// 6. non-planar by construction with a certificate, hidden behind planar material
-	for i := 0; i < g.Pick(400, 5000); i++ {
+	for i := 0; i < g.Pick(260, 3500); i++ {
 		b := hiddenKuratowski(r, r.Range(3, 25))
 		emit(lim, b, randomToks(r, r.Range(3, 10), 4, 0, 2, 0))
 	}
@@ -415,7 +493,7 @@ func gen(g *hx.Gen) {
 	for _, b := range namedGraphs() {
 		emitPadded(b, true)
 	}
-	for i := 0; i < g.Pick(25, 400); i++ {
+	for i := 0; i < g.Pick(25, 150); i++ {
 		kg, sets := kuratowski(r, i%2 == 0, r.Intn(4))
 		h := "K33"
 		if i%2 == 0 {
@@ -423,20 +501,51 @@ func gen(g *hx.Gen) {
 		}
 		emitPadded(built{g: kg, truth: 'N', certH: h, cert: sets, fam: "subdivided-" + h}, i%3 == 0)
 	}
-	for i := 0; i < g.Pick(20, 300); i++ {
+	for i := 0; i < g.Pick(20, 100); i++ {
 		emitPadded(hiddenKuratowski(r, r.Range(3, 12)), i%3 == 0)
 	}
-	for i := 0; i < g.Pick(20, 300); i++ {
+	for i := 0; i < g.Pick(20, 100); i++ {
 		h, fam := randomPlanar(r, r.Range(5, 30))
 		emitPadded(built{g: h, truth: 'P', fam: fam}, i%3 == 0)
 	}
-	for i := 0; i < g.Pick(60, 1000); i++ {
+	for i := 0; i < g.Pick(60, 300); i++ {
 		for _, b := range twoBlocks(r) {
 			emit(lim, b, relabels(2))
 			if i%4 == 0 {
 				emitPadded(b, false)
 			}
 		}
+	}
+
+	// 9. sizes across thresholds, with construction-known answers (and, up to modelMax vertices,
+	// the model): n = T-1, T, T+1 for T = 8 .. 256
+	for _, T := range []int{8, 16, 32, 64, 128, 256} {
+		for _, n := range []int{T - 1, T, T + 1} {
+			few := !g.Thorough() && T >= 128
+			for fi, b := range sizeFamilies(r, n, few) {
+				if !g.Thorough() && T == 128 && n != T && fi%2 == 1 {
+					continue // quick: half of the families just below and above 128
+				}
+				var toks []string
+				switch {
+				case g.Thorough():
+					toks = append(relabels(1), "i", fmt.Sprintf("p%d", r.Intn(1000)), seedTok(r))
+				case T <= 32:
+					toks = append(relabels(1), fmt.Sprintf("p%d", r.Intn(1000)), seedTok(r))
+				case T == 64:
+					toks = relabels(1)
+				case T == 128 && n == T:
+					toks = relabels(1)
+				}
+				emit(lim, b, toks)
+			}
+		}
+	}
+
+	// 10. volume: many relabellings of near-triangulations and of graphs one edge beyond planarity
+	// (9..40 vertices); judged by the construction-known answer, relabelling invariance and the model
+	for i := 0; i < g.Pick(220, 2500); i++ {
+		emit(lim, volumeBase(r), relabels(g.Pick(10, 14)))
 	}
 
 	// 7. near the boundary: a triangulation plus one edge (non-planar, m = 3n-5 only inside one
